@@ -43,6 +43,7 @@ let () =
     out_sv "FDACC" (List.map (fun (i, (_, (a, _))) -> (i, a)) fdr);
     out_cat "RUD" (List.map (fun (i, (_, (_, u))) -> (i, u)) fdr);
     out_sv "RACC" (List.map (fun (i, (_, (a, _))) -> (i, a)) fdr);
+    out_cat "EQUIV" (out_equiv fops t);
     out_sv "REACT" (out_react_art fops t);
     out_sv "REACTFB" (out_react_fb fops t);
     let mi = out_minv fops t in
